@@ -44,6 +44,69 @@ func init() {
 		}
 	}
 	time.Local = zone
+	for _, a := range os.Args {
+		if strings.Contains(a, "ZoneChange") {
+			installChangingZone()
+		}
+	}
+}
+
+// A zone whose UTC offset changes every six seconds from shortly after process start: +02:00, then
+// +01:00 (clocks go back an hour - the autumn change), then +02:00 again (the spring change), ...
+// A daylight-saving change is an ordinary event in the life of a process that logs around the
+// clock; this step lives through dozens of them.
+var (
+	zoneBase time.Time // the first change (a fall back); change k is at zoneBase + k*zoneStep, odd k spring forward
+	zoneN    = 120
+)
+
+const zoneStep = 6 * time.Second
+
+func installChangingZone() {
+	zoneBase = time.Now().Truncate(2 * time.Second).Add(6 * time.Second)
+	be32 := func(v int64) []byte { return []byte{byte(v >> 24), byte(v >> 16), byte(v >> 8), byte(v)} }
+	var b []byte
+	b = append(b, "TZif"...)
+	b = append(b, make([]byte, 16)...)
+	for _, n := range []int64{0, 0, 0, int64(zoneN), 2, 8} { // isutcnt isstdcnt leapcnt timecnt typecnt charcnt
+		b = append(b, be32(n)...)
+	}
+	for k := 0; k < zoneN; k++ {
+		b = append(b, be32(zoneBase.Add(time.Duration(k)*zoneStep).Unix())...)
+	}
+	for k := 0; k < zoneN; k++ {
+		b = append(b, byte((k+1)%2)) // change 0 -> type 1, change 1 -> type 0, ...
+	}
+	b = append(b, append(be32(7200), 1, 4)...) // type 0: +02:00 "DST" (in force before the first change)
+	b = append(b, append(be32(3600), 0, 0)...) // type 1: +01:00 "STD"
+	b = append(b, "STD\x00DST\x00"...)
+	loc, err := time.LoadLocationFromTZData("Verif/Changing", b)
+	if err != nil {
+		panic("VERIF-INCONCLUSIVE C13: " + err.Error())
+	}
+	time.Local = loc
+	zoneChanging = true
+}
+
+// zoneChanging: the local hour repeats, so a file name stands for two instants an hour apart; the
+// one meant is the one next to the writes of the case (a case lasts seconds).
+var zoneChanging bool
+
+func resolveName(p time.Time, near time.Time) time.Time {
+	best := p
+	for _, c := range []time.Time{p.Add(-time.Hour), p.Add(time.Hour)} {
+		if c.Format("20060102150405") == p.Format("20060102150405") && absDur(c.Sub(near)) < absDur(best.Sub(near)) {
+			best = c
+		}
+	}
+	return best
+}
+
+func absDur(d time.Duration) time.Duration {
+	if d < 0 {
+		return -d
+	}
+	return d
 }
 
 // recLayout hands the appender the record an event carries in its first field, verbatim: the
@@ -80,11 +143,11 @@ type wop struct {
 }
 
 type timeline struct {
-	IntervalS int
-	Writers   [][]wop
-	DurMS     int
-	Restarts  []int // ms offsets from start at which a stop/start cycle happens
-	Name      string
+	IntervalS   int
+	Writers     [][]wop
+	DurMS       int
+	Restarts    []int // ms offsets from start at which a stop/start cycle happens
+	Name        string
 	LateStartMS int // start the appender this long after an interval boundary (0 = whenever)
 }
 
@@ -170,7 +233,7 @@ func runTimeline(tl timeline, dir string) outcome {
 	app := newApp()
 	if tl.LateStartMS > 0 {
 		now := time.Now()
-		time.Sleep(now.Truncate(interval).Add(interval + time.Duration(tl.LateStartMS)*time.Millisecond).Sub(now) % interval)
+		time.Sleep(now.Truncate(interval).Add(interval+time.Duration(tl.LateStartMS)*time.Millisecond).Sub(now) % interval)
 	}
 	if err := app.Start(); err != nil {
 		return outcome{err: fmt.Errorf("VERIF-INCONCLUSIVE: %v", err)}
@@ -295,6 +358,9 @@ func judge(name, dir string, interval time.Duration, all []rec, single bool) out
 		if err != nil {
 			return outcome{err: fmt.Errorf("file name %q does not carry a valid timestamp", e.Name())}
 		}
+		if zoneChanging && len(all) > 0 {
+			nameTime = resolveName(nameTime, all[len(all)/2].start)
+		}
 		b, _ := os.ReadFile(filepath.Join(dir, e.Name()))
 		if len(b) > 0 && b[len(b)-1] != '\n' {
 			return outcome{err: fmt.Errorf("file %s ends in a torn record", e.Name())}
@@ -318,7 +384,7 @@ func judge(name, dir string, interval time.Duration, all []rec, single bool) out
 			sizeOf[key{w, seq}] = n
 		}
 	}
-		for _, r := range all {
+	for _, r := range all {
 		k := key{r.w, r.seq}
 		if found[k] != 1 {
 			return outcome{err: fmt.Errorf("record writer=%d seq=%d (%d bytes, written %s) is present %d times in the files, expected exactly once", r.w, r.seq, r.size, r.start.Format("15:04:05.000"), found[k])}
@@ -740,4 +806,76 @@ func waitDone(wg *sync.WaitGroup, d time.Duration) bool {
 	case <-time.After(d):
 		return false
 	}
+}
+
+// TestC13_ZoneChange: one writer, writing one record at a time at a steady pace, across an instant
+// at which the local zone changes its UTC offset (see installChangingZone). Interval boundaries are
+// instants; the wall clock jumping an hour back or forth moves none of them: every record sits
+// exactly once in a file created in the interval in which it was written, named for the local
+// wall clock of that interval.
+func TestC13_ZoneChange(t *testing.T) {
+	vk.Rule(rule)
+	if !zoneChanging {
+		t.Skip("needs the changing zone (run as a step of its own)")
+	}
+	base := vk.Scratch("c13z")
+	n := 0
+	rapid.Check(t, func(t *rapid.T) {
+		n++
+		dir := filepath.Join(base, strconv.Itoa(n))
+		_ = os.MkdirAll(dir, 0o755)
+		interval := rapid.SampledFrom([]time.Duration{time.Second, 2 * time.Second}).Draw(t, "interval")
+		gap := rapid.SampledFrom([]int{140, 90, 230, 40}).Draw(t, "gapMS")
+		viaAppend := rapid.Bool().Draw(t, "viaAppend")
+		restartAfter := rapid.Bool().Draw(t, "restartAfterChange")
+		k := 0 // the next change that is at least 2.5 s away
+		for zoneBase.Add(time.Duration(k) * zoneStep).Before(time.Now().Add(2500 * time.Millisecond)) {
+			k++
+		}
+		if k >= zoneN {
+			t.Fatalf("VERIF-INCONCLUSIVE C13: the changing zone ran out of changes")
+		}
+		at := zoneBase.Add(time.Duration(k) * zoneStep)
+		kind := "fall-back"
+		if k%2 == 1 {
+			kind = "spring-forward"
+		}
+		desc := fmt.Sprintf("zone-change %s interval=%v gap=%dms append=%v restart=%v", kind, interval, gap, viaAppend, restartAfter)
+		vk.Class("zone-change:" + kind)
+		app := &log.RollingFileAppender{AppenderBase: log.AppenderBase{Name: "r"}, Layout: recLayout{}, FileDir: dir, FileName: "z.log", Rotation: log.TimeRotation{Interval: interval}, MaxAge: 1000}
+		time.Sleep(time.Until(at.Add(-2200 * time.Millisecond)))
+		if err := app.Start(); err != nil {
+			t.Fatalf("VERIF-INCONCLUSIVE C13: %v", err)
+		}
+		var all []rec
+		restarted := false
+		for seq := 0; time.Now().Before(at.Add(2400 * time.Millisecond)); seq++ {
+			line := fmt.Sprintf("w0:%d:1:%08x|z\n", seq, crc32.ChecksumIEEE([]byte("z")))
+			t0 := time.Now()
+			if viaAppend {
+				appendRecord(app, line, seq)
+			} else {
+				app.Write([]byte(line))
+			}
+			all = append(all, rec{0, seq, "z", 1, t0, time.Now()})
+			time.Sleep(time.Duration(gap) * time.Millisecond)
+			if restartAfter && !restarted && time.Now().After(at.Add(300*time.Millisecond)) {
+				restarted = true
+				app.Stop()
+				if err := app.Start(); err != nil {
+					t.Fatalf("VERIF-INCONCLUSIVE C13: restart: %v", err)
+				}
+			}
+		}
+		app.Stop()
+		o := judge("z.log", dir, interval, all, true)
+		vk.Eval()
+		vk.NonTrivial(fmt.Sprintf("%s#%d", desc, k))
+		vk.Sample(map[string]any{"edge_case": desc, "records": len(all), "files": o.files})
+		if o.err != nil {
+			p := vk.SaveCase("c13", map[string]any{"edge_case": desc, "error": o.err.Error(), "schedule_dependent": true})
+			t.Fatalf("VERIF-VIOLATION C13: across a change of the local zone's UTC offset (%s at %s UTC): %v\ncase: %s (%s)", kind, at.UTC().Format("15:04:05"), o.err, desc, p)
+		}
+		_ = os.RemoveAll(dir)
+	})
 }
